@@ -22,6 +22,42 @@ pub struct Quote {
     pub num: Num,
     /// settlement as day number, or none
     pub settle: Option<i64>,
+    /// optional time of day of the settlement: (seconds, nanoseconds); nanoseconds >= 1e9
+    /// with seconds % 60 == 59 is chrono's representation of a leap second
+    #[serde(default)]
+    pub tod: Option<(u32, u32)>,
+}
+
+/// The settlement datetime of a quote.
+pub fn settle_ndt(q_settle: Option<i64>, tod: Option<(u32, u32)>) -> Option<chrono::NaiveDateTime> {
+    q_settle.map(|d| {
+        let base = day_to_ndt(d);
+        match tod {
+            None => base,
+            Some((s, n)) => chrono::NaiveTime::from_num_seconds_from_midnight_opt(s, n)
+                .map(|t| base.date().and_time(t))
+                .unwrap_or(base),
+        }
+    })
+}
+
+/// A settlement day: mostly 2000-2030, sometimes anywhere in years 1..9999.
+fn gen_settle_day(rng: &mut Rng) -> i64 {
+    match rng.below(20) {
+        0 => rng.i64_in(-719_162, 2_932_896),
+        1 => rng.i64_in(100_000, 130_000), // years 2243..2325: beyond i64 nanoseconds
+        2 => rng.i64_in(-140_000, -100_000), // years 1586..1696
+        _ => rng.i64_in(10957, 22000),
+    }
+}
+
+fn gen_tod(rng: &mut Rng) -> Option<(u32, u32)> {
+    match rng.below(25) {
+        0 => Some((rng.below(86_400) as u32, 0)),
+        1 => Some((rng.below(86_400) as u32, rng.below(1_000_000_000) as u32)),
+        2 => Some((86_399, 1_000_000_000 + rng.below(1_000_000_000) as u32)), // leap second
+        _ => None,
+    }
 }
 
 #[derive(Clone, Debug, Serialize, Deserialize, PartialEq)]
@@ -85,10 +121,11 @@ pub fn generate(rng: &mut Rng, tier: Tier) -> Plan {
     let shape = rng.below(3);
     let mut quotes = Vec::new();
     let settle = if rng.chance(0.5) {
-        Some(rng.i64_in(10957, 22000))
+        Some(gen_settle_day(rng))
     } else {
         None
     };
+    let tod = if settle.is_some() { gen_tod(rng) } else { None };
     let float_only = rng.chance(0.3);
     for i in 1..n {
         let parent = match shape {
@@ -111,6 +148,7 @@ pub fn generate(rng: &mut Rng, tier: Tier) -> Plan {
             rhs: ccys[b].clone(),
             num,
             settle,
+            tod,
         });
     }
     // sometimes a dual quote's own variable has the very name another plain quote will be
@@ -195,6 +233,7 @@ pub fn generate(rng: &mut Rng, tier: Tier) -> Plan {
                     rhs: q.rhs.clone(),
                     num,
                     settle: q.settle,
+                    tod: q.tod,
                 }
             })
             .collect()
@@ -234,6 +273,7 @@ pub fn generate(rng: &mut Rng, tier: Tier) -> Plan {
                 rhs: r,
                 num: Num::F(Fx::new(gen_level(rng))),
                 settle: cur[0].settle,
+                tod: cur[0].tod,
             };
             let pos = rng.usize_in(0, items.len());
             items.insert(pos, bad);
@@ -254,11 +294,22 @@ pub fn generate(rng: &mut Rng, tier: Tier) -> Plan {
             }
             None => Some(rng.i64_in(10957, 22000)),
         };
+        // sometimes only the time of day differs
+        let (settle, tod) = if q.settle.is_some() && rng.chance(0.2) {
+            (q.settle, Some((rng.below(86_399) as u32 + 1, 7)))
+        } else {
+            (settle, q.tod)
+        };
+        let tod = if settle.is_none() { None } else { tod };
+        if settle == q.settle && tod == q.tod {
+            return None;
+        }
         Some(vec![Quote {
             lhs: q.lhs.clone(),
             rhs: q.rhs.clone(),
             num: q.num.with_value(gen_level(rng)),
             settle,
+            tod,
         }])
     };
     let apply = |cur: &mut Vec<Quote>, items: &Vec<Quote>| {
@@ -293,8 +344,9 @@ pub fn generate(rng: &mut Rng, tier: Tier) -> Plan {
                         None
                     }
                 }
-                None => Some(rng.i64_in(10957, 22000)),
+                None => Some(gen_settle_day(rng)),
             };
+            let new_tod = if new_settle.is_some() { gen_tod(rng) } else { None };
             let items: Vec<Quote> = cur
                 .iter()
                 .map(|q| Quote {
@@ -306,6 +358,7 @@ pub fn generate(rng: &mut Rng, tier: Tier) -> Plan {
                         q.num.with_value(gen_level(rng))
                     },
                     settle: new_settle,
+                    tod: new_tod,
                 })
                 .collect();
             let t = target(rng, forked);
@@ -390,8 +443,8 @@ enum Expect {
 }
 
 fn settlement_consistent(qs: &[Quote]) -> bool {
-    let first = qs[0].settle;
-    qs.iter().all(|q| q.settle == first)
+    let first = settle_ndt(qs[0].settle, qs[0].tod);
+    qs.iter().all(|q| settle_ndt(q.settle, q.tod) == first)
 }
 
 impl Model {
@@ -527,7 +580,7 @@ pub fn to_fxrate(q: &Quote) -> Result<FXRate, Fail> {
         .num
         .to_number()
         .map_err(|e| HarnessError(format!("plan number not constructible: {}", e)))?;
-    FXRate::try_new(&q.lhs, &q.rhs, num, q.settle.map(day_to_ndt))
+    FXRate::try_new(&q.lhs, &q.rhs, num, settle_ndt(q.settle, q.tod))
         .map_err(|_| HarnessError(format!("FXRate::try_new refused {}{}", q.lhs, q.rhs)).into())
 }
 
@@ -1366,6 +1419,7 @@ pub fn shrink(plan: &Plan) -> Vec<Plan> {
         let mut p = plan.clone();
         for q in p.setup.quotes.iter_mut() {
             q.settle = None;
+            q.tod = None;
         }
         for s in p.steps.iter_mut() {
             if let Step::Update { items, .. } = s {
@@ -1373,6 +1427,7 @@ pub fn shrink(plan: &Plan) -> Vec<Plan> {
                     // keep "late" items different from the market: None -> Some stays Some
                     if it.settle.is_some() {
                         it.settle = None;
+                        it.tod = None;
                     }
                 }
             }
